@@ -80,7 +80,7 @@ func (c10) Gen(seed int64, tier string, emit func(any)) {
 	r := rand.New(rand.NewSource(seed))
 	n := 600
 	if tier == "thorough" {
-		n = 10000
+		n = 5000
 	}
 	for i := 0; i < n; i++ {
 		k := 1 + r.Intn(6)
